@@ -1,0 +1,52 @@
+//go:build verif
+
+// Contracts for the govc verifier (/verif). Comment-only; compiled only with -tags verif.
+// Vocabulary (ddLen, ddAt, rows, cols, tcReason, ...) is defined in /verif/specs/tableclass.ghost.
+
+package tableclass
+
+//@ func (*Classifier).Classify(t)
+//@   requires c != nil && t != nil
+//@   ensures [C18] #cascade-reason result1 == tcReason(t)
+//@   ensures [C18] #cascade-type result0 == tcType(t)
+//@   loop 0 invariant insideEditable(t.Parent) == insideEditable(parent)
+//@   loop 1 invariant ddMatches(directDescendants, t) && descRole(t, 0) == descRole(t, ITER)
+//@   loop 2 invariant ddMatches(directDescendants, t) && len(directTDs) == tdCount(t, ITER) && disjoint(directTDs, directDescendants)
+//@   loop 2 invariant forall(j, 0 <= j && j < len(directTDs), directTDs[j] == nthTd(t, j) && directTDs[j] != nil)
+//@   loop 3 invariant ddMatches(directDescendants, t) && cellScan(t, 0) == cellScan(t, ITER) && len(directTDs) == tdCount(t, ddLen(t))
+//@   loop 3 invariant forall(j, 0 <= j && j < len(directTDs), directTDs[j] == nthTd(t, j) && directTDs[j] != nil)
+
+//@ func (*Classifier).getDirectDescendants(t)
+//@   trusted
+//@   requires t != nil
+//@   fresh_assigns elems(ref)
+//@   ensures ddMatches(result, t)
+//@   ensures freshslice(result)
+
+//@ func (*Classifier).hasOneOfElements(elements, tags)
+//@   requires forall(i, 0 <= i && i < len(elements), elements[i] != nil)
+//@   assigns nothing
+//@   ensures [C18] forall(t[*html.Node], implies(ddMatches(elements, t), result == ddOneOf(t, tags, 0)))
+//@   loop 0 invariant forall(t[*html.Node], implies(ddMatches(elements, t), ddOneOf(t, tags, 0) == ddOneOf(t, tags, ITER)))
+
+//@ func (*Classifier).getRowAndColumnCount(t)
+//@   requires t != nil
+//@   fresh_assigns elems(ref)
+//@   ensures [C18] #rows result0 == rows(t)
+//@   ensures [C18] #cols result1 == cols(t)
+//@   loop 0 invariant 0 <= i && i <= len(trs) && rows == rowSum(t, i) && columns == colMax(t, i)
+//@   loop 0 invariant len(trs) == ebtLen(t, "tr") && forall(k, 0 <= k && k < len(trs), trs[k] == ebtAt(t, "tr", k))
+//@   loop 0 decreases len(trs) - i
+//@   loop 1 invariant 0 <= j && j <= len(cells) && columnsInThisRow == colSum(trs[i], j) && 0 <= i && i < len(trs)
+//@   loop 1 invariant len(cells) == ebtLen(trs[i], "td") && forall(k, 0 <= k && k < len(cells), cells[k] == ebtAt(trs[i], "td", k))
+//@   loop 1 invariant rows == rowSum(t, i+1) && columns == colMax(t, i)
+//@   loop 1 invariant len(trs) == ebtLen(t, "tr") && forall(k, 0 <= k && k < len(trs), trs[k] == ebtAt(t, "tr", k))
+//@   loop 1 decreases len(cells) - j
+
+//@ func (*Classifier).hasNestedTables(t)
+//@   inline
+//@   requires t != nil
+
+//@ func (*Classifier).logAndReturn(tableType, reason)
+//@   inline
+//@   requires c != nil
